@@ -507,3 +507,69 @@ func unitC13adapters(e common.Env, p *common.Part) {
 		p.Sample(map[string]interface{}{"ids": ids})
 	}
 }
+
+// ---- C20 (adapter part): EdDSA sessions through real schemes with concurrent dispatch under the race detector ----
+
+func unitC20eddsa(e common.Env, p *common.Part) {
+	p.Rule = "race-detector build; EdDSA key generation and orchestrated signing through real Loud/Silent schemes with one dispatcher goroutine per link; distinct key = (mode, repetition)"
+	reps := e.Pick(4, 30)
+	for r := 0; r < reps; r++ {
+		if !e.Mine(r) {
+			continue
+		}
+		silent := r%2 == 1
+		key := fmt.Sprintf("eddsa silent=%v #%d", silent, r)
+		p.Begin(key)
+		ids := []uint16{1, 2, 3}
+		m := map[uint16]uint16{1: 1, 2: 2, 3: 3}
+		c := cluster.New(cluster.Config{Map: m, Silent: silent, Threshold: 1,
+			KGF: func(node uint16) tss.KeyGenerator { return newAdapter("eddsa", node) },
+			SF:  func(node uint16) tss.Signer { return newAdapter("eddsa", node) }})
+		c.Net.StartConcurrent()
+		if silent {
+			c.SetPick(tss.DkgTopicName, ids)
+		}
+		ctx, cancel := context.WithTimeout(context.Background(), 60*time.Second)
+		var wg sync.WaitGroup
+		var mu sync.Mutex
+		shares := map[uint16][]byte{}
+		for _, u := range ids {
+			u := u
+			wg.Add(1)
+			go func() {
+				defer wg.Done()
+				time.Sleep(time.Duration(u*u) * 500 * time.Microsecond)
+				out, _ := c.Schemes[u].KeyGen(ctx, 3, 1)
+				mu.Lock()
+				shares[u] = out
+				mu.Unlock()
+			}()
+		}
+		wg.Wait()
+		signers := []uint16{1, 3}
+		topic := fmt.Sprintf("c20-eddsa-%d", r)
+		if silent {
+			c.SetPick(topic, signers)
+		}
+		for _, u := range signers {
+			u := u
+			c.Schemes[u].SetStoredData(shares[u])
+			wg.Add(1)
+			go func() {
+				defer wg.Done()
+				d := sha256.Sum256([]byte(topic))
+				c.Schemes[u].Sign(ctx, d[:], topic)
+			}()
+		}
+		wg.Wait()
+		cancel()
+		links := c.Net.LinkCount()
+		c.Net.Stop()
+		p.Case(key, links >= 2)
+		p.Count("sessions", 1)
+		p.Count("dispatcher_goroutines", int64(links))
+		if r%3 == 0 {
+			p.Sample(map[string]interface{}{"mode_silent": silent, "repetition": r, "dispatcher_goroutines": links})
+		}
+	}
+}
